@@ -61,7 +61,7 @@ func (c *Contract) byKind(k string) []*Clause {
 
 func (c *Contract) id() string { return c.Pkg + "." + c.Func }
 
-var clauseRe = regexp.MustCompile(`^(requires|ensures|exits|calls|relates|loop|assigns|reads|option|func|lemma|props)\b(\[[A-Za-z0-9_.@+\-]+\])?\s*(.*)$`)
+var clauseRe = regexp.MustCompile(`^(requires|ensures|exits|calls|relates|final|loop|assigns|reads|option|func|lemma|props)\b(\[[A-Za-z0-9_.@+\-]+\])?\s*(.*)$`)
 
 // parseContracts reads the //@ clause blocks of a contracts file.
 func parseContracts(pkgPath, file string, src []byte) ([]*Contract, error) {
@@ -731,6 +731,62 @@ func (w *World) processRepoPackageOnce(p *packages.Package, imp types.Importer, 
 				if ant, ok := topAntecedent(cl.Expr); ok {
 					fmt.Fprintf(&gen, "func %s_ant(%s) bool { return %s }\n\n", cl.Pred, strings.Join(all, ", "), rewriteImplies(ant))
 				}
+			case "final":
+				// an assertion just before the last statement of the function body (its final return),
+				// which may mention the local variables in scope there
+				if fd.Body == nil || len(fd.Body.List) == 0 {
+					return c.id(), "final clause on a function without body", nil
+				}
+				lastStmt := fd.Body.List[len(fd.Body.List)-1]
+				if _, ok := lastStmt.(*ast.ReturnStmt); !ok {
+					return c.id(), "final clause: the last statement of the function is not a return", nil
+				}
+				ex, err := parser.ParseExpr(expr)
+				if err != nil {
+					return c.id(), fmt.Sprintf("clause at line %d does not parse: %v", cl.Line, err), nil
+				}
+				scope := p.TypesInfo.Scopes[fd.Type]
+				if scope == nil {
+					return c.id(), "no scope for function body", nil
+				}
+				inner := scope.Innermost(lastStmt.Pos())
+				if inner == nil {
+					inner = scope
+				}
+				var locals, ltypes []string
+				seenL := map[string]bool{}
+				bound := map[string]bool{}
+				ast.Inspect(ex, func(n ast.Node) bool {
+					if fl, ok := n.(*ast.FuncLit); ok {
+						for _, f := range fl.Type.Params.List {
+							for _, nm := range f.Names {
+								bound[nm.Name] = true
+							}
+						}
+					}
+					return true
+				})
+				ast.Inspect(ex, func(n ast.Node) bool {
+					if x, ok := n.(*ast.Ident); ok && !seenL[x.Name] && !bound[x.Name] {
+						_, o := inner.LookupParent(x.Name, lastStmt.Pos())
+						if v, ok := o.(*types.Var); ok && v.Parent() != nil && v.Parent() != p.Types.Scope() && v.Parent() != types.Universe && !v.IsField() {
+							seenL[x.Name] = true
+							locals = append(locals, x.Name)
+							ltypes = append(ltypes, x.Name+" "+types.TypeString(v.Type(), qual))
+						}
+					}
+					return true
+				})
+				if cl.Label == "" {
+					cl.Label = fmt.Sprintf("%d", nens)
+				}
+				nens++
+				cl.Locals = locals
+				cl.Pred = fmt.Sprintf("vcF_%s_%s", base, strings.ReplaceAll(sanitize(cl.Label), ".", "_"))
+				fmt.Fprintf(&gen, "func %s(%s) bool { return %s }\n\n", cl.Pred, strings.Join(ltypes, ", "), expr)
+				file := w.Fset.Position(lastStmt.Pos()).Filename
+				inserts[file] = append(inserts[file], ins{off: w.Fset.Position(lastStmt.Pos()).Offset,
+					text: fmt.Sprintf(" %s(%s); ", cl.Pred, strings.Join(locals, ", "))})
 			case "invariant", "decreases":
 				if cl.Loop < 0 || cl.Loop >= len(loops) {
 					return c.id(), fmt.Sprintf("%s has %d loops, a clause names loop %d", c.Func, len(loops), cl.Loop), nil
@@ -900,6 +956,7 @@ func (w *World) processRepoPackageOnce(p *packages.Package, imp types.Importer, 
 			"forallStrings": "func forallStrings(p func(k string) bool) bool { return true }\n",
 			"vcIter":       "func vcIter() int { return 0 }\n",
 			"vcSortPerm":   "func vcSortPerm(i int) int { return i }\n",
+			"vcSortFact":   "func vcSortFact(a, b int) bool { return true }\n",
 			"vcSame":       "func vcSame[T any](a, b T) bool { return fmt.Sprintf(\"%p\", any(a)) == fmt.Sprintf(\"%p\", any(b)) }\n",
 			"vcWriteCount": "func vcWriteCount() int { return 0 }\n",
 			"vcWritten":    "func vcWritten() []byte { return nil }\n",
